@@ -910,7 +910,8 @@ class Geometry(SupportsCoords[float]):
     # It does work without these two methods, but gdal/ogr prints 'ERROR 1: Empty geometries cannot be constructed'
     # when unpickling, which is quite unpleasant.
     def __getstate__(self):
-        return {"geom": self.json, "crs": self.crs}
+        # shapely geometries pickle losslessly (rings, collections, Z); GeoJSON does not survive __init__'s 2d-only parser
+        return {"geom": self.geom, "crs": self.crs}
 
     def __setstate__(self, state):
         self.__init__(**state)
